@@ -202,8 +202,8 @@ MANIFEST_TEXT = {
         "note": KERNEL_NOTE + "'Promptly' is a harness deadline. Recovery bound is a corollary argued from the two theorems plus the monitor, not a separate theorem.",
         "technique": "Lean 4 proof + state correspondence + restart/identity monitors"},
     "C15": {
-        "text": "Lean 4 theorems over P: a housekeeping pass and CloseIdleConnections neither close nor retire a connection of an active list with an outstanding call (the guard's presence is read from the source); Close closes every pooled connection, empties the pool, stops housekeeping and is idempotent. Reclamation after KeepAlive/IdleConnTimeout and long calls spanning many ticks are exercised in the correspondence phases.",
-        "note": KERNEL_NOTE + "Partial: the unrestricted statement is false when a tick falls inside the getConn-to-register window (DESIGN.md D12, not reproduced on the real code); reclamation is observed, not proved.",
+        "text": "Lean 4 theorems over P, for every reachable pool state: a housekeeping pass and CloseIdleConnections neither close nor retire a connection of an active list with an outstanding call (guards read from the source); a connection that getConn has just handed out is stamped on every path, so a pass that falls between getConn and the registration of the call, within KeepAlive, leaves it untouched; a connection that is not stale is left exactly as it is; an unused connection older than KeepAlive leaves the active list at the next pass and goes to the idle queue or is closed; an idle queue whose connections are all older than IdleConnTimeout is closed entirely; Close closes every pooled connection, empties the pool, stops housekeeping and is idempotent. Timed correspondence phases incl. a caller held inside the hand-out window by a build-tagged hook point.",
+        "note": KERNEL_NOTE + "D12 (a pass inside the getConn-to-register window) was reproduced with a build-tagged hook point and repaired (46ebda4); the window theorem covers passes within KeepAlive of the hand-out. Reclamation is proved per pass; that passes happen is the runtime's ticker.",
         "technique": "Lean 4 proof (safety part) + state correspondence over timed phases + busy-connection monitor"},
     "C07": {
         "text": "Lean 4 theorems over the wire model: for every header value, scratch buffer and read-buffer tail the pb/default and code encoders emit exactly the documented bytes and the decoders return the original fields; upgrade flags round-trip and are injective. The model's constants are regenerated from /repo on every run and the model is compared byte-for-byte with the real encoders/decoders on generated values.",
